@@ -52,8 +52,10 @@ class ComputeTypeVisitor(Visitor.DefaultVisitor):
 
         scope = ctx[-1]
         fields = OrderedDict()
+        # Fields live in the structure's own scope, not in the enclosing one
+        fieldCtx = ctx + [types.Scope(scope)]
         for field in decl.GetFields():
-            self.v_Visit(field, ctx)
+            self.v_Visit(field, fieldCtx)
             fields[field.GetName()] = field.GetType()
         structType = types.StructType(decl.GetName(), fields)
         scope.RegisterType(decl.GetName(), structType)
